@@ -8,6 +8,7 @@ namespace w { namespace real {
 extern Log g_log;
 extern int g_activity;
 
+void cold_start();   // optional, once per process, before the first reset()
 void reset();                       // fresh world; installs reporter generation 0
 void shutdown_quiet();              // destroy whatever is left without checking (harness error paths)
 
